@@ -11,6 +11,7 @@ import (
 	"runtime/metrics"
 	"strconv"
 	"strings"
+	"sync"
 	"syscall"
 	"time"
 
@@ -33,6 +34,25 @@ import (
 
 func init() {
 	props["C18"] = runC18
+	replayers["C18/latemsg"] = func(v rt.Violation) string {
+		c := rt.ReplayCtx("C18")
+		c.Serial("replay", func(w *rt.W) {
+			for i := range c18Entries {
+				if c18Entries[i].name == rt.ArgString(v, "entry") {
+					restore := c18ApplyLimit(int(rt.ArgInt(v, "limit_setting")))
+					_, err := c18Entries[i].call(rt.ArgString(v, "a"), "")
+					restore()
+					if err != nil {
+						c18KeptMu.Lock()
+						c18Kept = []c18KeptErr{{err, rt.ArgString(v, "a"), i, int(rt.ArgInt(v, "limit_setting"))}}
+						c18KeptMu.Unlock()
+						c18RereadKept(w)
+					}
+				}
+			}
+		})
+		return c.Report()
+	}
 	replayers["C18/call"] = func(v rt.Violation) string {
 		c := rt.ReplayCtx("C18")
 		restore := c18ApplyLimit(int(rt.ArgInt(v, "limit_setting")))
@@ -326,6 +346,47 @@ func containsWindow(msg, input string) (string, bool) {
 	return "", false
 }
 
+// c18Kept retains input-too-long errors so that their message can be read again after the limit
+// has been changed (an error value is read when it is logged, which may be after a deferred restore
+// of the configuration): the message must not reproduce the input then either.
+type c18KeptErr struct {
+	err     error
+	a       string
+	ei      int
+	setting int
+}
+
+var (
+	c18KeptMu sync.Mutex
+	c18Kept   []c18KeptErr
+	c18KeptN  = map[int]int{}
+)
+
+func c18RereadKept(w *rt.W) {
+	c18KeptMu.Lock()
+	kept := c18Kept
+	c18Kept = nil
+	c18KeptN = map[int]int{}
+	c18KeptMu.Unlock()
+	for _, readUnder := range []int{0, 2} {
+		restore := c18ApplyLimit(readUnder)
+		for _, k := range kept {
+			e := &c18Entries[k.ei]
+			var msg string
+			panicked, pm := rt.Call(func() { msg = k.err.Error() })
+			w.Eval(1)
+			args := rt.Args("entry", e.name, "limit_setting", k.setting, "limit", c18LimitFor(e.pkg, k.setting), "a", k.a, "b", "", "len_a", len(k.a), "message_read_under_limit_setting", readUnder)
+			if panicked {
+				w.Fail("panic-in-error-message:"+e.pkg, "latemsg", args, "panic: "+strings.SplitN(pm, "\n", 2)[0], "a message", "Error() of a retained input-too-long error panicked")
+			} else if win, found := containsWindow(msg, k.a); found {
+				w.Fail("too-long-error-reproduces-input-when-read-later:"+e.pkg, "latemsg", args, clipStr(msg, 400), "a message without the input", "the input-too-long message, read after MaxInputLength was changed, contains the input window "+strconv.Quote(win))
+			}
+			w.ClassN("too-long-error-reread-after-limit-change", 1)
+		}
+		restore()
+	}
+}
+
 // c18Call executes one entry point under the monitor: no panic, result shape, limit contract.
 func c18Call(w *rt.W, fl *c18Flight, ei, setting int, a, b string) {
 	e := &c18Entries[ei]
@@ -363,6 +424,14 @@ func c18Call(w *rt.W, fl *c18Flight, ei, setting int, a, b string) {
 			w.Fail("over-limit-input-not-refused-with-input-too-long:"+e.pkg, "call", args(), fmt.Sprint("zero=", zero, " err=", err), "ErrInputTooLong", "an input longer than the non-zero MaxInputLength must be rejected with the package's input-too-long error before anything else")
 		} else if win, found := containsWindow(err.Error(), a); found {
 			w.Fail("too-long-error-reproduces-input:"+e.pkg, "call", args(), err.Error(), "a message without the input", "the input-too-long message contains the input window "+strconv.Quote(win))
+		}
+		if isTL && w.Rng != nil && (len(a) < 64 || len(a)%7 == 0) {
+			c18KeptMu.Lock()
+			if c18KeptN[ei] < 40 { // per entry point
+				c18KeptN[ei]++
+				c18Kept = append(c18Kept, c18KeptErr{err, a, ei, setting})
+			}
+			c18KeptMu.Unlock()
 		}
 		w.ClassN("over-limit:"+e.pkg, 1)
 	case !tooLongAny:
@@ -812,7 +881,9 @@ func c18Child(c *rt.Ctx, dir string) {
 			}
 		})
 		restore()
+		c.Serial(fmt.Sprintf("reread-too-long-errors-%d", setting), c18RereadKept)
 	}
+	c.Require("too-long-error-reread-after-limit-change", 1000)
 	for _, pkg := range pkgs {
 		c.Require("over-limit:"+pkg, 100)
 		c.Require("exactly-at-limit:"+pkg, 10)
